@@ -299,6 +299,7 @@ def run(ctx):
   r3_io_coupdate(ctx)
   r4_source_untouched(ctx)
   shared.rule_performer_translation(ctx, 'C02.R5')
+  shared.rule_graph_rewrite_simulation(ctx, 'C02.R7', 'graph rewriting on label graphs: only the listed consumers and (iff covered) the graph outputs are rewired; original operators keep their order and operands; exactly one new operator and tensor per insertion')
   from sa.rules import c19  # pylint: disable=g-import-not-at-top
   ctx.rule('C02.R6', 'graph info: a tensor that is a subgraph output records the pseudo consumer -1 (so that its instruction rewires the output)', floor=1)
   gi = ctx.repo.func(f'{c19.TIG}._tensor_info_generator')
